@@ -1055,6 +1055,27 @@ func runCase(ctx context.Context, w *rec.Writer, p *Plan) {
 		panic(fmt.Sprintf("template %d rejected: %v", p.Tmpl, err))
 	}
 	R := &runner{srv: ref, store: st.GetId(), modelID: wm.GetAuthorizationModelId()}
+	// With the weighted-graph flag on, a Check whose weighted-graph evaluation fails with a
+	// non-terminal error (an injected datastore failure is one) is answered by the DEFAULT engine
+	// (Server.Check / BatchCheck fallback).  Under an injected fault the current answer is therefore
+	// the one of whichever engine answered: a second cache-less reference with the flag off.
+	var R1 *runner
+	if p.Cfg.V2 {
+		ref1 := newServer(ds, Cfg{Pipeline: p.Cfg.Pipeline}, false)
+		defer ref1.Close()
+		R1 = &runner{srv: ref1, store: st.GetId(), modelID: wm.GetAuthorizationModelId()}
+	}
+	// fallbackRef: the reference to judge a faulted request by
+	fallbackRef := func(obs, rf string, v1 func() string) string {
+		if R1 == nil || obs == rf || strings.HasPrefix(obs, "err") {
+			return rf
+		}
+		if a := v1(); a == obs {
+			w.Stat("fault_answered_by_default_engine_fallback", 1)
+			return a
+		}
+		return rf
+	}
 	T := &runner{srv: tst, store: st.GetId(), modelID: wm.GetAuthorizationModelId()}
 	for _, t := range p.init {
 		if err := T.write(ctx, []scen.Tuple{t}, nil); err != nil {
@@ -1152,6 +1173,9 @@ func runCase(ctx context.Context, w *rec.Writer, p *Plan) {
 			if op.Fault > 0 && !hit {
 				w.Stat("fault_not_reached", 1)
 			}
+			if op.Fault > 0 {
+				rf = fallbackRef(obs, rf, func() string { return R1.check(ctx, pr, op.Cons) })
+			}
 			emit(0, pr, op.Cons, obs, rf, unstable, op.Fault > 0)
 		case "batch":
 			var ps []Probe
@@ -1167,6 +1191,18 @@ func runCase(ctx context.Context, w *rec.Writer, p *Plan) {
 			}
 			rf := R.batch(ctx, ps, op.Cons)
 			var rf2 []string
+			if op.Fault > 0 && R1 != nil {
+				var v1 []string
+				for i := range ps {
+					i := i
+					rf[i] = fallbackRef(obs[i], rf[i], func() string {
+						if v1 == nil {
+							v1 = R1.batch(ctx, ps, op.Cons)
+						}
+						return v1[i]
+					})
+				}
+			}
 			for i := range ps {
 				unstable := false
 				if obs[i] != rf[i] && op.Cons == 2 && !strings.HasPrefix(obs[i], "err") {
